@@ -90,7 +90,7 @@ BOUNDS = {
         'thorough': 'additionally 3 workers x 2 items (37 transitions) and 2 workers x 3 items over six fixed item graphs (independent, fan-out, chain, join, cycle, complete; 40 transitions each)',
     },
     'C10': {
-        'quick': '2 goroutines, each performing one call chosen by the solver from {Do(k0), Do(k1), Get(k0), Get(k1)}; all schedules up to 24 transitions',
+        'quick': '2 goroutines, each performing one call chosen by the solver from {Do(k0), Do(k1), Get(k0), Get(k1)}, the function returning a value or nil per key (solver choice); all schedules up to 24 transitions; queries: safety, deadlock, Get-never-blocks (a goroutine calling Get is enabled in every state), unwinding, witness, data race',
         'thorough': 'additionally 3 goroutines, case-split over the 20 multisets of call kinds (each case: all schedules up to its transition bound)',
     },
     'C17': {
